@@ -128,7 +128,8 @@ pub fn evaluate(s: &Scenario) -> Verdicts {
         Ok(o) => o,
         Err(e) => return Verdicts { c01: Oracle::Fails { class: "reference-stream-unreadable".into(), detail: e.clone() }, c04: Oracle::NotApplicable, coq: String::new(), desc, key },
     };
-    let inv = s.via_put && s.elems.iter().any(|e| (e.g, e.e) == (0x0008, 0x0005));
+    // charset_changed is only set when the object was really built through put() (objects with recorded lengths are read)
+    let inv = s.via_put && !has_explicit(&s.elems) && s.elems.iter().any(|e| (e.g, e.e) == (0x0008, 0x0005));
     let run = run_ds(&obj, s.ts, s.nochange, s.api_options);
     let coq = coq_of_run(&run, s.ts, s.nochange, inv);
     // ---- C01: writing succeeds, read-back equals the data set up to the documented normalisations
